@@ -762,6 +762,7 @@ func (s *Server) processPacket(cl *Client, pk packets.Packet) error {
 	if cl.State.Inflight.Len() > 0 && atomic.LoadInt32(&cl.State.Inflight.sendQuota) > 0 {
 		next, ok := cl.State.Inflight.NextImmediate()
 		if ok {
+			next.Expiry = heldExpiry(next.Expiry)
 			_ = cl.WritePacket(next)
 			if ok := cl.State.Inflight.Delete(next.PacketID); ok {
 				atomic.AddInt64(&s.Info.Inflight, -1)
@@ -1139,7 +1140,7 @@ func (s *Server) publishToClient(cl *Client, sub packets.Subscription, pk packet
 		}
 
 		if sentQuota == 0 && atomic.LoadInt32(&cl.State.Inflight.maximumSendQuota) > 0 {
-			out.Expiry = -1
+			out.Expiry = holdExpiry(out.Expiry) // negative = held back by flow control; the expiry time stays recoverable
 			cl.State.Inflight.Set(out)
 			return out, nil
 		}
